@@ -452,6 +452,58 @@ def int_instr(ctx, rng, a: int, b: int) -> None:
                           _short(v), repr(exc) if exc else st[0].hex())
 
 
+def counting_instr(ctx, rng) -> None:
+    """instructions that PRODUCE an integer from a count (SIZE of an item,
+    DEPTH of the stack, sizes of cache entries): the item they push decodes to
+    exactly that count - around every byte / sign boundary"""
+    o = _opc()
+
+    def expect(name, prog, want, size=70_000, items=1024):
+        State.cur = {'kind': 'counting', 'op': name, 'n': want,
+                     'prog': prog if len(prog) < 200 else prog[:200]}
+        ctx.evaluated()
+        ctx.tab('instr', name)
+        functions = env.mods()[0]
+        try:
+            _, stack, _ = functions.run_script(
+                prog, {}, stack_max_item_size=size, stack_max_items=items)
+            st, exc = list(stack.deque), None
+        except BaseException as e:
+            st, exc = None, e
+        if exc is not None or not st:
+            _viol('count-instr-raised', f'{name} for count {want} raised',
+                  want, repr(exc)[:100])
+        elif sdec(st[-1]) != want:
+            _viol('count-instr-wrong', f'{name}: the pushed item does not '
+                  f'decode to the count {want}', want,
+                  f'{st[-1].hex()} = {sdec(st[-1])}')
+        else:
+            ctx.mark_nontrivial(dg(name.encode(), str(want).encode()))
+    for n in (0, 1, 2, 126, 127, 128, 129, 200, 254, 255, 256, 257, 1023,
+              1024, 32767, 32768, 32769, 65535, rng.randrange(128, 256),
+              rng.randrange(32768, 65536)):
+        item = bytes([rng.getrandbits(8) or 1]) * n
+        push = _push(item) if n else b'\x03\x00'
+        expect('SIZE', push + bytes([o['OP_SIZE']]), n)
+    for n in (0, 1, 127, 128, 129, 200, 255, 256, 257, 1000, 1023):
+        # OP_COPY makes n copies of one item cheaply
+        prog = b''
+        left = n
+        if n:
+            prog = b'\x01'
+            left -= 1
+            while left:
+                k = min(left, 255)
+                prog += bytes([o['OP_COPY'], k])
+                left -= k
+        expect('DEPTH', prog + bytes([o['OP_DEPTH']]), n, items=2048)
+    for n in (1, 127, 128, 129, 255):
+        items = b''.join(_push(b'\x07') for _ in range(n))
+        wr = bytes([o['OP_WRITE_CACHE'], 1]) + b'k' + bytes([n])
+        expect('READ_CACHE_SIZE', items + wr + bytes([o['OP_READ_CACHE_SIZE'],
+                                                     1]) + b'k', n)
+
+
 def float_instr(ctx, u: int) -> None:
     o = _opc()
     b = u.to_bytes(4, 'big')
@@ -566,6 +618,7 @@ def run_shard(spec, ctx):
             b = a * rng.randrange(-5, 6)     # exact divisions
             a = a if a else 3
         int_instr(ctx, rng, a, b)
+    counting_instr(ctx, rng)
     fl = [0, 0x80000000, 0x7f800000, 0xff800000, 0x7fc00000, 0x00000001,
           0x007fffff, 0x00800000, 0x7f7fffff, 0x4b7fffff, 0x4b800000,
           0xcb000001, 0x3f800000, 0xbf800000, 0x4f000000, 0xcf000000]
